@@ -24,6 +24,23 @@ ACTORS = ["account", "cron", "datacap", "eam", "ethaccount", "evm", "init", "mar
           "multisig", "paych", "placeholder", "power", "reward", "system", "verifreg"]
 
 
+class _Out:
+    """write a file only when its content changes (keeps lake/cargo incremental builds quiet)"""
+    def __init__(self, path):
+        self.path, self.buf = path, []
+    def write(self, x):
+        self.buf.append(x)
+    def __enter__(self):
+        return self
+    def __exit__(self, *a):
+        new = "".join(self.buf)
+        old = open(self.path).read() if os.path.exists(self.path) else None
+        if old != new:
+            with open(self.path, "w") as f:
+                f.write(new)
+        return False
+
+
 def die(msg):
     sys.stderr.write("extract_methods: " + msg + "\n")
     print("extract_methods: " + msg)
@@ -661,7 +678,7 @@ def main():
     facts["flagWrittenOnlyByValidators"] = n_writes == 4
 
     os.makedirs(GEN, exist_ok=True)
-    with open(os.path.join(GEN, "Methods.lean"), "w") as f:
+    with _Out(os.path.join(GEN, "Methods.lean")) as f:
         f.write("-- GENERATED by tools/extract_methods.py from the actors' lib.rs — do not edit by hand.\n")
         f.write("import BA.Model.DispatchTerm\nnamespace BA.Gen\nopen BA.Dispatch\n\n")
         f.write("def firstExportedMethodNumber : Nat := %d\n\n" % first_exported)
@@ -686,7 +703,7 @@ def main():
         f.write("\n-- handler functions (informational): " + "; ".join(
             "%s.%s→%s%s" % (a, mname, fn, ("(via %s)" % via if via else "")) for (a, mname, num, r, term, first, fn, via) in entries if via) + "\n")
         f.write("end BA.Gen\n")
-    with open(os.path.join(GEN, "FvmRuntime.lean"), "w") as f:
+    with _Out(os.path.join(GEN, "FvmRuntime.lean")) as f:
         f.write("-- GENERATED by tools/extract_methods.py from runtime/src/runtime/fvm.rs — do not edit by hand.\n")
         f.write("-- Structural facts only (DESIGN §4.2): fvm.rs cannot be executed in this sandbox.\n")
         f.write("namespace BA.Gen.Fvm\n")
